@@ -15,7 +15,7 @@ import (
 
 // ---------------------------------------------------------------- C18: a struct of less usual field types
 //
-// Doc covers the scalar kinds; the directory under golden/types was written by the pinned
+// Doc covers the scalar kinds; the directory /verif/golden-types was written by the pinned
 // release for a struct whose fields are DEFINED types (from time.Time, string, int), containers,
 // an interface slot, an anonymous struct, an array, a pointer and an unexported member. The
 // current tree must open it (same descriptors), read the same objects, answer the same searches
@@ -115,13 +115,13 @@ func typesObserve(db *sod.DB) (*typesExpected, error) {
 	return exp, nil
 }
 
-// TestGenGoldenTypes records golden/types with the release the harness is built against.
+// TestGenGoldenTypes records golden-types with the release the harness is built against.
 func TestGenGoldenTypes(t *testing.T) {
 	out := os.Getenv("GOLDEN_OUT")
 	if out == "" {
 		t.Skip("GOLDEN_OUT not set")
 	}
-	dir := filepath.Join(out, "types")
+	dir := filepath.Join(out, "golden-types")
 	os.RemoveAll(dir)
 	sod.LowercaseNames = false
 	db := sod.Open(filepath.Join(dir, "db"))
@@ -153,7 +153,7 @@ func TestC18Types(t *testing.T) {
 	if root == "" {
 		root = "/verif/golden"
 	}
-	src := filepath.Join(root, "types")
+	src := filepath.Join(filepath.Dir(root), "golden-types") // (next to the numbered corpus, not inside it)
 	b, err := os.ReadFile(filepath.Join(src, "expected.json"))
 	if err != nil {
 		t.Fatalf("golden types missing: %v", err)
